@@ -278,7 +278,7 @@ func RunParent(p *Prop, tier string, seed int64, exe string, onlyCase int) int {
 				cmd.Env = append(os.Environ(),
 					"GORACE=halt_on_error=0 log_path="+filepath.Join(dir, "race"),
 					"GOTRACEBACK=all")
-				cmd.SysProcAttr = &syscall.SysProcAttr{Setpgid: true}
+				cmd.SysProcAttr = &syscall.SysProcAttr{Setpgid: true, Pdeathsig: syscall.SIGKILL}
 				err := cmd.Start()
 				if err != nil {
 					fmt.Fprintln(os.Stderr, "fw: cannot start child:", err)
